@@ -528,24 +528,32 @@ def blame(t, v, fails):
     return leaf_class(t, v)
 
 
-def fails_roundtrip(t, v):
-    a, b = impl_pack(t, v)
-    exp = ref_pack(t, v)
-    if a != exp or b != exp:
-        return True
-    want = ('Some', norm(t, v))
-    return impl_unpack(t, exp) != (want, want)
+_FAILS = {}
+
+
+def _memo(name, t, v, compute):
+    """blame() asks the same questions about the same small sub-values over and over: remember the answers."""
+    k = (name, t, v)
+    if k not in _FAILS:
+        if len(_FAILS) > 200000:
+            _FAILS.clear()
+        _FAILS[k] = compute()
+    return _FAILS[k]
 
 
 def fails_pack(t, v):
-    a, b = impl_pack(t, v)
-    exp = ref_pack(t, v)
-    return a != exp or b != exp
+    def go():
+        a, b = impl_pack(t, v)
+        exp = ref_pack(t, v)
+        return a != exp or b != exp
+    return _memo('pack', t, v, go)
 
 
 def fails_unpack(t, v):
-    want = ('Some', norm(t, v))
-    return impl_unpack(t, ref_pack(t, v)) != (want, want)
+    def go():
+        want = ('Some', norm(t, v))
+        return impl_unpack(t, ref_pack(t, v)) != (want, want)
+    return _memo('unpack', t, v, go)
 
 
 # ------------------------------------------------------------------------------------------------ checks
